@@ -64,6 +64,13 @@ func EngineRun(p *Program, funcs map[string]jet.Func) (jetrun.Outcome, jet.VarMa
 		s.AddGlobal(a.Get(0).String(), a.Get(1).Interface())
 		return reflect.Value{}
 	})
+	// rtWrite(s...): Go code that writes through the Runtime it is handed (the escaping writer), piece by piece
+	s.AddGlobalFunc("rtWrite", func(a jet.Arguments) reflect.Value {
+		for i := 0; i < a.NumOfArguments(); i++ {
+			a.Runtime().Write([]byte(a.Get(i).String()))
+		}
+		return reflect.Value{}
+	})
 	swCustomFn, _ := safeWriter("swCustom")
 	swCustom := mkSafeWriter(swCustomFn)
 	s.AddGlobal("swCustom", swCustom)
